@@ -437,20 +437,19 @@ func runMintSched(c *Ctx) {
 		return
 	}
 	defer func() {
+		schedModelOff = false
 		if e != nil {
 			e.env.Close()
 		}
 	}()
-	maxPre, nRandom := 1, 3
+	maxPre, nRandom := 1, 1
 	if c.Thorough {
 		maxPre, nRandom = 3, 20
 	}
 	unit := 0
 	for _, sc := range schedScenarios() {
 		for si, script := range sc.scripts {
-			if !c.Thorough && si%2 == 1 {
-				continue // quick: every other Lightning script
-			}
+			_ = si
 			unit++
 			if unit%c.ShardN != c.ShardK {
 				continue
@@ -475,8 +474,10 @@ func runMintSched(c *Ctx) {
 					return k
 				})
 				if tainted {
-					if len(c.Res.Disagreements) > 0 {
-						return nil, nil
+					if len(c.Res.Disagreements) > 0 && !schedModelOff {
+						// the model has diverged: the disagreement is reported; the rest of the stream runs model-free so
+						// that the monitors can still find a concrete schedule on which the property fails
+						schedModelOff = true
 					}
 					fresh()
 				}
@@ -492,14 +493,8 @@ func runMintSched(c *Ctx) {
 			}
 			n := enumerate(mp, 0, run)
 			c.Hist("sched-enumerated", fmt.Sprintf("%s|%s: %d schedules with <= %d preemptions", sc.name, strings.Join(script, ","), n, mp))
-			if len(c.Res.Disagreements) > 0 {
-				return
-			}
 			for k := 0; k < nr; k++ {
 				run(func(i int, live []int) int { return c.Rng.Intn(len(live)) })
-			}
-			if len(c.Res.Disagreements) > 0 {
-				return
 			}
 		}
 	}
